@@ -704,7 +704,11 @@ def replay(path):
     else:       # expectation not exact: the residual decides
         aux = measure(case['f'], case['args'], obs)
         print('residual', aux)
-        bad = (aux['s10'] <= 0 and not (aux['slo'] >= 0 >= aux['shi'])) if case['f'] in ('IRR', 'XIRR') else aux['err'] > 1000
+        tol = 1000
+        a0 = case['args'][0] if case['args'] else {}
+        if case['f'] in ('PMT', 'PV') and a0.get('t') == 'num' and a0['n'] != 0:      # (Trace_C20!TolFor)
+            tol += (a0['d'] // 500) // abs(a0['n'])
+        bad = (aux['s10'] <= 0 and not (aux['slo'] >= 0 >= aux['shi'])) if case['f'] in ('IRR', 'XIRR') else aux['err'] > tol
     if bad:
         print(f"VIOLATION property={d['property']} replay={path}")
         return 1
